@@ -185,4 +185,14 @@ PROPS = {
         level_text="Generated commit histories over several branches interleaved with full and delta indexing runs through the real gitindex.IndexGitRepo; after every run and for every indexed branch, a search restricted to the branch returns exactly one document with the head content for each path in the branch head and no document for any other path.",
         level_note="Samples histories (seeded); git CLI dominates the cost (about 0.3 s per history).",
     ),
+    "C14": dict(
+        group="gitsim", level="exploration",
+        rule="one run = one generated git repository (1-3 branches, 2-6 commits over 7 paths: text, empty, binary, larger-than-SizeMax and shared blobs, deletions) indexed (1) through go-git, (2) through `git cat-file --batch` with the child's stdout delivered in fault-stream-chosen chunks of 1 byte..64 KiB, (3) after further commits, through cat-file with the stream cut (early EOF or child killed) at a fault-stream-chosen byte, on top of the previously installed index. evaluations = indexing runs; distinct_nontrivial = distinct (repository history, stream fault kind, position) tuples.",
+        harnesses=[dict(name="C14", workers=4, quick=200, thorough=12000, quick_deadline_s=170, thorough_deadline_s=1500, ulimit_kb=24000000, env={"VERIF_GCPERCENT": "200", "VERIF_MEMLIMIT_MB": "2048"})],
+        expect_faults=["chunked-reads", "early-eof", "child-killed"],
+        components=G_COMPONENTS, assumptions=["claim limited to the blob-reading paths and their stream faults; ignore-file semantics, submodules and tree-shape coverage are input space and not claimed", "git here is 2.39 (no cat-file --filter): the batch path is enabled with ZOEKT_DISABLE_CATFILE_BATCH=false and a non-empty LargeFiles list"],
+        technique="deterministic fault injection on the git cat-file --batch stream (seeded chunking, early EOF, killed child) plus model-based comparison of both blob-reading paths with git",
+        level_text="Both blob-reading paths of gitindex.IndexGitRepo on generated repositories must produce exactly one document per distinct (path, content) pair with the branch list of the branches that contain it, the blob content or a skip marker for binary/too-large blobs, and must agree with each other, for every chunking of the cat-file stream; a cat-file stream that ends early or whose child is killed must make the run fail and leave the previously installed index unchanged.",
+        level_note="Samples repositories and fault positions.",
+    ),
 }
